@@ -77,10 +77,13 @@ CONSTANTS DerefLimit,        \* Document::DEREF_LIMIT (128 in the code)
           NameTreeDepthLimit,\* budget of the Kids recursion  (used when Dev_KidsDepth = FALSE)
           Dev_RsrcRecursion, \* collect_resources calls itself once per Parent link (no depth bound)
           Dev_FirstDepth,    \* get_outlines: no bound on the depth of the First recursion
-          Dev_KidsDepth      \* get_named_destinations: no bound on the depth of the Kids recursion
+          Dev_KidsDepth,     \* get_named_destinations: no bound on the depth of the Kids recursion
+          FirstWalkIterative \* alternative repair of the First recursion: an explicit work list on the heap (no frame
+                             \* per level, no limit; proposed_fixes/C17-outline-walk-iterative.diff) instead of a depth limit
 
 ASSUME /\ StackFrames \in Nat /\ OutlineDepthLimit \in Nat /\ NameTreeDepthLimit \in Nat
        /\ OutlineDepthLimit + 1 < StackFrames /\ NameTreeDepthLimit + 1 < StackFrames
+       /\ FirstWalkIterative \in BOOLEAN /\ (FirstWalkIterative => ~Dev_FirstDepth)
 
 Mk(k, n, s, e, d) == [k |-> k, n |-> n, s |-> s, e |-> e, d |-> d]
 None      == Mk("none", 0, "", <<>>, <<>>)
@@ -413,10 +416,12 @@ OutStep(doc, s) ==
             via   == IF fv.k = "ref" THEN fv.n ELSE -1
             enter == Append(Append(rest, f), OlFrame(child, via))
             \* the callee runs at depth Len(s.stack) (the top-level call at depth 0) and needs one more frame
-            Call(s2) == IF ~Dev_FirstDepth /\ Len(s.stack) > OutlineDepthLimit THEN Fail("err", "")
+            Call(s2) == IF FirstWalkIterative THEN s2                 \* the "stack" of this automaton is then a heap work list
+                        ELSE IF ~Dev_FirstDepth /\ Len(s.stack) > OutlineDepthLimit THEN Fail("err", "")
                         ELSE IF Len(s.stack) + 1 > StackFrames THEN Fail("overflow", "outline.first.depth")
                         ELSE s2
         IN IF fv = None THEN SetTop(f)
+           ELSE IF via # -1 /\ ~Dev_FirstCycle /\ via \in s.seen THEN SetTop(f)  \* visited.insert(id) comes before the lookup
            ELSE IF child = None THEN Fail("err", "")
            ELSE IF via = -1 THEN Call([s EXCEPT !.stack = enter])
            ELSE IF Dev_FirstCycle
@@ -430,12 +435,14 @@ OutStep(doc, s) ==
             nd  == GetDictInDict(doc, top.node, "Next")
             via == IF nv.k = "ref" THEN nv.n ELSE -1
             go  == [top EXCEPT !.node = nd, !.ph = "outline", !.nx = IF via = -1 THEN top.nx ELSE top.nx \cup {via}]
-        IN IF nd = None THEN Pop
+            PopSeen == [Pop EXCEPT !.seen = s.seen \cup {via}]
+        IN IF via # -1 /\ ~Dev_NextCycle                 \* if let Ok(Reference(id)) = node.get(b"Next") { if !visited.insert(id) { break } }
+           THEN IF via \in s.seen THEN Pop
+                ELSE IF nd = None THEN PopSeen            \* the reference is recorded even when it names no dictionary
+                ELSE [s EXCEPT !.stack = Append(rest, go), !.seen = s.seen \cup {via}]
+           ELSE IF nd = None THEN Pop
            ELSE IF via = -1 THEN SetTop(go)
-           ELSE IF Dev_NextCycle
-                THEN IF via \in top.nx THEN Fail("diverge", "outline.next.cycle") ELSE SetTop(go)
-                ELSE IF via \in s.seen THEN Pop                                \* repaired: visited set
-                     ELSE [s EXCEPT !.stack = Append(rest, go), !.seen = s.seen \cup {via}]
+           ELSE IF via \in top.nx THEN Fail("diverge", "outline.next.cycle") ELSE SetTop(go)
 
 RECURSIVE OutRun(_, _)
 OutRun(doc, s) == IF s.pc \in Final THEN s ELSE OutRun(doc, OutStep(doc, s))
@@ -598,7 +605,8 @@ ChainOutcomeS(fam, L, w, id, sf) ==
                 ELSE IF w \in {"rsrc", "outl", "toc"} THEN (IF L > DerefLimit THEN ERR ELSE OK)
                 ELSE OK
          [] w = "rsrc" -> IF Dev_RsrcRecursion /\ d > sf THEN [pc |-> "overflow", cls |-> "resources.parent.depth"] ELSE OK
-         [] w \in {"outl", "toc"} /\ fam = "first" -> Rec(Dev_FirstDepth, OutlineDepthLimit, "outline.first.depth")
+         [] w \in {"outl", "toc"} /\ fam = "first" -> IF FirstWalkIterative THEN OK
+                                                       ELSE Rec(Dev_FirstDepth, OutlineDepthLimit, "outline.first.depth")
          [] w \in {"outl", "toc", "nd"} /\ fam \in {"kids", "kidswide", "pagekids"} -> Rec(Dev_KidsDepth, NameTreeDepthLimit, "nameddest.kids.depth")
          [] OTHER -> OK
 
@@ -613,7 +621,7 @@ ChainMaxDepth(fam, L, w, id) ==
     LET d == ChainDepthOf(fam, L, w, id)
         cut(dev, limit) == IF ~dev /\ d > limit THEN limit ELSE IF d + 1 > StackFrames THEN StackFrames - 1 ELSE d
     IN CASE w = "rsrc" -> IF ~Dev_RsrcRecursion THEN 0 ELSE IF d > StackFrames THEN StackFrames ELSE d
-         [] w \in {"outl", "toc"} /\ fam = "first" -> cut(Dev_FirstDepth, OutlineDepthLimit)
+         [] w \in {"outl", "toc"} /\ fam = "first" -> IF FirstWalkIterative THEN 0 ELSE cut(Dev_FirstDepth, OutlineDepthLimit)
          [] w \in {"outl", "toc", "nd"} /\ fam \in {"kids", "kidswide", "pagekids"} -> cut(Dev_KidsDepth, NameTreeDepthLimit)
          [] OTHER -> 0
 
